@@ -167,6 +167,15 @@ func respForms() []respForm {
 		e[p+".body.format"] = "json"
 		baByName("num").digest(e, p+".body.schema")
 	}})
+	// headers given as a reference to an object type (the same type the request's headers name)
+	fs = append(fs, respForm{"headers-ref+body", func(code string) *doc.Node {
+		return doc.N(code).WithKids(doc.N("Headers").WithBody("@t"), bodyNode("Body", baByName("num"), false))
+	}, func(e exp, p string) {
+		e[p+".annotation"] = absent
+		baByName("ref").digest(e, p+".headers.schema")
+		e[p+".body.format"] = "json"
+		baByName("num").digest(e, p+".body.schema")
+	}})
 	fs = append(fs, respForm{"body-child-ref", func(code string) *doc.Node {
 		return doc.N(code).WithKids(bodyNode("Body", baByName("ref"), true))
 	}, func(e exp, p string) {
@@ -208,6 +217,13 @@ func reqForms() []reqForm {
 		headersDigest(e, p+".headers.schema")
 		e[p+".body.format"] = "json"
 		baByName("arr").digest(e, p+".body.schema")
+	}})
+	fs = append(fs, reqForm{"headers-ref+body", func() *doc.Node {
+		return doc.N("Request").WithKids(doc.N("Headers").WithBody("@t"), bodyNode("Body", baByName("str"), false))
+	}, func(e exp, p string) {
+		baByName("ref").digest(e, p+".headers.schema")
+		e[p+".body.format"] = "json"
+		baByName("str").digest(e, p+".body.schema")
 	}})
 	fs = append(fs, reqForm{"body-child-regex", func() *doc.Node {
 		return doc.N("Request").WithKids(bodyNode("Body", baByName("regex"), false))
